@@ -439,6 +439,64 @@ static void build_wide_attrs() {
     }
 }
 
+// derivation chains: T0 = (n0), T1 = extension of T0 by (n1), ... up to T3; the particle of every level is a LOCAL element declaration or a reference to a
+// global one (all 2^(D+1) assignments), every level also adds an optional attribute.  Elements e0..eD are declared with T0..TD.  Items: every e_j, plain and with
+// xsi:type = every type derived from T_j, x every sequence of <= D+2 children over {n0..nD}; valid iff the children are exactly n0..nk of the governing type
+// T_k, in order, each an integer.  (A type must hand on to its own extensions what it inherited: local declarations of the grand-base are looked up under
+// the scope of the most derived type.)
+static void build_chains(const std::string& tier) {
+    int maxD = tier == "thorough" ? 3 : 2;
+    for (int D = 1; D <= maxD; D++) for (unsigned mask = 0; mask < (1u << (D + 1)); mask++) for (int order = 0; order < 2; order++) {
+        if (order == 1 && (mask % 3) != 0) continue;   // bottom-up declaration order (forward references) for a third of the assignments
+        BCase bc;
+        std::vector<std::string> nm(D + 1);
+        std::string kinds;
+        for (int i = 0; i <= D; i++) { bool glob = (mask >> i) & 1; nm[i] = std::string(glob ? "g" : "l") + std::to_string(i); kinds += glob ? 'G' : 'L'; }
+        bc.desc = "chain depth " + std::to_string(D) + " particles " + kinds + (order ? " declared bottom-up" : " declared top-down");
+        std::string s = XSD_HEAD;
+        std::string choice = "<xs:choice>";
+        for (int j = 0; j <= D; j++) choice += "<xs:element name=\"e" + std::to_string(j) + "\" type=\"t:T" + std::to_string(j) + "\"/>";
+        choice += "</xs:choice>";
+        s += R_AND_W + w_decl(choice);
+        for (int i = 0; i <= D; i++) if ((mask >> i) & 1) s += "<xs:element name=\"" + nm[i] + "\" type=\"xs:integer\"/>\n";
+        std::vector<std::string> types;
+        for (int i = 0; i <= D; i++) {
+            std::string part = ((mask >> i) & 1) ? "<xs:element ref=\"t:" + nm[i] + "\"/>" : "<xs:element name=\"" + nm[i] + "\" type=\"xs:integer\"/>";
+            std::string att = "<xs:attribute name=\"x" + std::to_string(i) + "\" type=\"xs:integer\"/>";
+            std::string t = "<xs:complexType name=\"T" + std::to_string(i) + "\">";
+            if (i == 0) t += "<xs:sequence>" + part + "</xs:sequence>" + att;
+            else t += "<xs:complexContent><xs:extension base=\"t:T" + std::to_string(i - 1) + "\"><xs:sequence>" + part + "</xs:sequence>" + att + "</xs:extension></xs:complexContent>";
+            t += "</xs:complexType>\n";
+            types.push_back(t);
+        }
+        if (order) for (int i = D; i >= 0; i--) s += types[i]; else for (int i = 0; i <= D; i++) s += types[i];
+        s += "</xs:schema>\n";
+        bc.files["/v/s.xsd"] = s;
+        int maxLen = D + 2;
+        uint64_t nw = 0, p = 1; for (int l = 0; l <= maxLen; l++) { nw += p; p *= (uint64_t)(D + 1); }
+        for (int j = 0; j <= D; j++) for (int k = j; k <= D; k++) for (int viaXsi = 0; viaXsi < 2; viaXsi++) {
+            if (k > j && !viaXsi) continue;   // k == j: plain and explicit xsi:type of the declared type; k > j: xsi:type only
+            for (uint64_t w = 0; w < nw; w++) {
+                // decode word w over D+1 letters, lengths 0..maxLen
+                std::vector<int> word; { uint64_t r = w, cnt = 1; int len = 0; while (r >= cnt) { r -= cnt; cnt *= (uint64_t)(D + 1); len++; } for (int q = 0; q < len; q++) { word.push_back((int)(r % (D + 1))); r /= (D + 1); } }
+                bool shape = (int)word.size() == k + 1; for (int q = 0; shape && q <= k; q++) if (word[q] != q) shape = false;
+                for (int bad = 0; bad < (shape ? 2 : 1); bad++) {
+                    Item it;
+                    std::string attrs = viaXsi ? " xsi:type=\"t:T" + std::to_string(k) + "\"" : "";
+                    if (shape && !bad) attrs += " x" + std::to_string(k) + "=\"1\"" + (k ? " x0=\"2\"" : "");
+                    std::string kids;
+                    for (size_t q = 0; q < word.size(); q++) kids += "<t:" + nm[word[q]] + ">" + ((bad && q == 0) ? "x" : std::to_string(q + 1)) + "</t:" + nm[word[q]] + ">";
+                    it.xml = "<t:e" + std::to_string(j) + attrs + ">" + kids + "</t:e" + std::to_string(j) + ">";
+                    if (shape && !bad) { it.expect = 0; it.why = "valid: children are exactly the particles of T" + std::to_string(k) + " (inherited ones first)"; it.type = "urn:t|T" + std::to_string(k); }
+                    else { it.expect = 1; it.why = shape ? "cvc-datatype-valid: inherited child is not an integer" : "cvc-complex-type.2.4: children do not match the content model of T" + std::to_string(k); }
+                    bc.items.push_back(it);
+                }
+            }
+        }
+        BCASES.push_back(bc);
+    }
+}
+
 // ================================================================================================ content kinds
 static void build_content(const std::string& tier) {
     (void)tier;
@@ -839,6 +897,7 @@ static bool setup_space(const std::string& space, const std::string& tier, const
     if (space == "attrs") { build_attrs(tier); build_wide_attrs(); }
     else if (space == "content") build_content(tier);
     else if (space == "types") build_types(tier);
+    else if (space == "chains") build_chains(tier);
     else if (space == "wild") { build_wild(tier); build_wild_nons(); }
     else if (space == "assembly") build_assembly(tier);
     else return false;
